@@ -100,6 +100,18 @@ def check_access_rows(chk, it, tabs, rows, configs, rule_rt, rule_ea, rt_check, 
         chk.fn(fn)
         for row in {r['name']: r for r in rws}.values():
             rt_check(chk, rule_rt, row, summ, site, htu)
+            # independent second decision: the function evaluated on concrete memory bytes, addresses (aligned and not) and operands
+            # against the byte-level specification of the access
+            from .. import concrete_mem as cm
+            try:
+                bad = cm.refute(htu, fn, row, 'little' if header_cfg == 'le' else 'big', small=chk.tier != 'thorough')
+            except cm.Unsupported as e:
+                chk.note('%s: concrete evaluation not applicable (%s)' % (fn, e))
+                continue
+            except pe.PEError as e:
+                bad = 'cannot be evaluated on concrete operands: %s' % e
+            chk.expect(not bad, rule_rt, '%s@concrete' % row['name'], '%s: %s' % (row['name'], bad), site + ':bytes',
+                       detail_ok='agrees with the byte-level specification on the concrete family')
     return tu
 
 
@@ -274,7 +286,18 @@ def check_bulk(chk, it, tabs, configs):
                 d = args[0]
                 while d.k == 'cast':
                     d = d.a[0]
-                ok = d.k == 'addr' and d.a[0].k == 'index' and d.a[0].a[1].k == 'var' and d.a[0].a[1].x == ops[0]
+                def is_data(x):
+                    while x.k == 'cast':
+                        x = x.a[0]
+                    return x.k == 'member' and x.x[0] == 'data'
+
+                def is_op0(x):
+                    while x.k == 'cast' and ct.tinfo(x.ty)[0] == 'int' and ct.tinfo(x.ty)[1] >= 32 and not (ct.tinfo(x.ty)[2] and ct.tinfo(x.ty)[1] == 32):
+                        x = x.a[0]
+                    return x.k == 'var' and x.x == ops[0]
+                # &mem.data[dest]  or  mem.data + dest
+                ok = (d.k == 'addr' and d.a[0].k == 'index' and is_data(d.a[0].a[0]) and is_op0(d.a[0].a[1])) or \
+                    (d.k == 'bin' and d.x == '+' and ((is_data(d.a[0]) and is_op0(d.a[1])) or (is_data(d.a[1]) and is_op0(d.a[0]))))
                 src = args[1]
                 while src.k == 'cast':
                     src = src.a[0]
